@@ -787,6 +787,9 @@ pub fn gc_inner() -> Vec<T> {
         "(strlen (concat 2 2 2))",            // garbage then small
         "(concat)",
         "(concat 11 (q . 0x00))",             // 2001 bytes
+        "(substr 2 (q . 1) (q . 3))",         // 2-byte view into old bytes that is a canonical small integer
+        "(substr 2 (q . 5) (q . 5))",         // empty view
+        "(concat (q . 1) (q . 2))",           // new 2-byte atom with a canonical small value
         "(pubkey_for_exp (strlen (concat 2 2)))",
     ]
     .iter()
@@ -809,13 +812,128 @@ pub fn p_gc() -> ProgSpace {
             let get = |j: u64| tree::deser(&inner[j as usize]).unwrap().0;
             let args: Vec<T> = if r < k { vec![get(r)] } else { vec![get((r - k) / k), get((r - k) % k)] };
             let p = if op == 2 {
-                // (a (q . X) 1) where X evaluates the inner expressions and returns the last / a pair
-                let body = if args.len() == 1 { args[0].clone() } else { list(&[atom(&[4]), args[0].clone(), args[1].clone()]) };
-                list(&[atom(&[2]), quote(body), atom(&[1])])
+                if args.len() == 1 {
+                    // (a (q . X) 1)
+                    list(&[atom(&[2]), quote(args[0].clone()), atom(&[1])])
+                } else {
+                    // (a (q . X) (c 2 Y)): X is the return value, Y is garbage produced while building the environment
+                    list(&[atom(&[2]), quote(args[0].clone()), list(&[atom(&[4]), atom(&[2]), args[1].clone()])])
+                }
             } else {
                 cons(atom(&[op]), list(&args))
             };
             (p, gc_env())
         }),
     }
+}
+
+// ---------------------------------------------------------------------
+// P1b: operators over big operands reached through environment paths
+pub fn big_env() -> T {
+    // 2 -> 600-byte positive int, 5 -> 7, 11 -> 43-byte int, 23 -> 129-byte negative int
+    let mut neg = big_atom(129);
+    neg[0] = 0x9c;
+    list(&[atom(&big_atom(600)), atom(&[7]), atom(&big_atom(43)), atom(&neg)])
+}
+pub fn p1b(ops: Vec<Vec<u8>>, max_arity: usize) -> ProgSpace {
+    let choices: Vec<Vec<u8>> = vec![atom(&[2]).ser(), atom(&[5]).ser(), atom(&[11]).ser(), atom(&[23]).ser(), quote(atom(&[0x7f, 0xff])).ser(), quote(atom(&[0xff])).ser(), quote(atom(&[0x01, 0x86, 0xa0])).ser()];
+    let k = choices.len() as u64;
+    let per_op: u64 = (1..=max_arity).map(|a| k.pow(a as u32)).sum();
+    let total = ops.len() as u64 * per_op;
+    ProgSpace {
+        name: format!("P1b(big operands, arity<={max_arity})"),
+        total,
+        get: Box::new(move |i| {
+            let op = &ops[(i / per_op) as usize];
+            let mut r = i % per_op;
+            let mut arity = 1;
+            loop {
+                let c = k.pow(arity as u32);
+                if r < c {
+                    break;
+                }
+                r -= c;
+                arity += 1;
+            }
+            let mut args = vec![];
+            for _ in 0..arity {
+                args.push(tree::deser(&choices[(r % k) as usize]).unwrap().0);
+                r /= k;
+            }
+            (cons(atom(op), list(&args)), big_env())
+        }),
+    }
+}
+
+/// path family: a path atom as the whole program against deep environments
+pub fn p_paths(depth: usize) -> ProgSpace {
+    let kmax = depth as u64 + 3;
+    // (env kind, walk kind, k, zero padding)
+    let total = 2 * 4 * (kmax + 1) * 3;
+    ProgSpace {
+        name: format!("PATHS(depth {depth})"),
+        total,
+        get: Box::new(move |i| {
+            let mut r = i;
+            let pad = r % 3;
+            r /= 3;
+            let k = r % (kmax + 1);
+            r /= kmax + 1;
+            let walk = r % 4;
+            r /= 4;
+            let envk = r;
+            // environment: right-deep list (a1 a2 ... aD) or left-deep (((.. . aD) . a2) . a1)
+            let mut env = atom(b"end");
+            for j in (0..depth).rev() {
+                let leaf = atom(&[0x80 | (j % 100) as u8, j as u8]);
+                env = if envk == 0 { cons(leaf, env) } else { cons(env, leaf) };
+            }
+            // walk: 0 = R^k, 1 = R^k F, 2 = F^k, 3 = F^k R ; bits from the least significant end
+            let one: num_bigint::BigUint = 1u32.into();
+            let v: num_bigint::BigUint = match walk {
+                0 => (&one << (k + 1)) - &one,
+                1 => (&one << (k + 1)) + (&one << k) - &one,
+                2 => &one << k,
+                _ => (&one << (k + 1)) | (&one << k),
+            };
+            let mut b = v.to_bytes_be();
+            if b[0] & 0x80 != 0 && pad == 0 {
+                // keep the atom as given (a "negative" looking path is still a path)
+            }
+            for _ in 0..pad {
+                b.insert(0, 0);
+            }
+            (atom(&b), env)
+        }),
+    }
+}
+
+/// PV: operator applications whose argument lists come from the repository's own vectors
+pub fn p_vectors(per_group: usize) -> ProgSpace {
+    use std::collections::BTreeMap;
+    let files = [
+        "test-bls-ops.txt", "test-blspy-g1.txt", "test-blspy-g2.txt", "test-blspy-hash.txt", "test-blspy-pairing.txt", "test-blspy-verify.txt",
+        "test-bls-zk.txt", "test-secp-verify.txt", "test-secp256k1.txt", "test-secp256r1.txt", "test-keccak256.txt", "test-sha256tree.txt",
+        "test-modpow.txt", "test-more-ops.txt", "test-core-ops.txt", "test-sha256.txt",
+    ];
+    let mut groups: BTreeMap<(String, String, bool), usize> = BTreeMap::new();
+    let mut progs: Vec<Vec<u8>> = vec![];
+    for f in files {
+        for v in crate::vectors::load(f) {
+            let key = (f.to_string(), v.opname.clone(), v.expect.is_some());
+            let n = groups.entry(key).or_insert(0);
+            if *n >= per_group {
+                continue;
+            }
+            *n += 1;
+            progs.push(quoted_call(&v.op, &v.args).ser());
+        }
+    }
+    // explicit corner: bls_verify with only the identity signature
+    let mut inf = vec![0u8; 96];
+    inf[0] = 0xc0;
+    progs.push(list(&[atom(&[59]), quote(atom(&inf))]).ser());
+    progs.push(list(&[atom(&[58])]).ser());
+    let total = progs.len() as u64;
+    ProgSpace { name: format!("PV({} programs from op-tests vectors)", progs.len()), total, get: Box::new(move |i| (tree::deser(&progs[i as usize]).unwrap().0, nil())) }
 }
